@@ -1,6 +1,6 @@
 SPECIFICATION Spec
 CONSTANTS
-  Fams = {"tiny"}
+  Fams = {"lex", "text", "control", "while", "try", "tryloop", "apply", "loader", "ws", "errors"}
   Grow = 0
   SLen = 0
   Fuel = 3
